@@ -213,6 +213,7 @@ def r36_none_vs_zero(ctx):
                    ("C07", "C09", "C20", "C08"))
     _r36_slot_truthiness(ctx, mins)
     _r36_year_truthiness(ctx)
+    _r36_default_only_when_missing(ctx)
 
 
 def _r36_slot_truthiness(ctx, mins):
@@ -299,6 +300,93 @@ def _r36_slot_truthiness(ctx, mins):
                ("C07", "C09", "C20", "C08"))
 
 
+def _r36_default_only_when_missing(ctx):
+    """A constructor fills in a default only for a field that was not
+    given: `if x is None: x = 1`.  Written as `if not x: x = 1` a given but
+    impossible 0 (week 0, month 0, day 0) is silently replaced by the
+    default instead of reaching the bounds check."""
+    rep = ctx.rep
+    rule = "R36.none-vs-zero"
+    P = ("C09", "C07")
+    bad = []
+    n_defaults = 0
+    for cname in ("TimePoint", "Duration", "TimeZone"):
+        c = ctx.model.cls(cname)
+        f = c.methods.get("__init__")
+        if f is None:
+            continue
+        numeric = {p for p in f.call_params if not p.startswith((
+            "dump_format", "truncated_dump", "truncated_property"))}
+        for n in walk_no_nested(f.node):
+            if not isinstance(n, ast.If):
+                continue
+            for st in n.body:
+                if not (isinstance(st, ast.Assign) and len(
+                        st.targets) == 1 and isinstance(
+                            st.value, ast.Constant) and isinstance(
+                                st.value.value, (int, float)) and
+                        not isinstance(st.value.value, bool)):
+                    continue
+                t = st.targets[0]
+                name = t.id if isinstance(t, ast.Name) else (
+                    t.attr.lstrip("_") if isinstance(t, ast.Attribute)
+                    else None)
+                if name not in numeric:
+                    continue
+                tgt = U(t)
+                # is the test about this very field?
+                truthy = []
+
+                def walk(e, neg):
+                    if isinstance(e, ast.UnaryOp) and isinstance(
+                            e.op, ast.Not):
+                        walk(e.operand, not neg)
+                    elif isinstance(e, ast.BoolOp):
+                        for v in e.values:
+                            walk(v, neg)
+                    elif U(e) == tgt:
+                        truthy.append(e)
+                walk(n.test, False)
+                n_defaults += 1
+                if truthy:
+                    bad.append((f, n, tgt, st))
+    for f, n, tgt, st in bad:
+        rep.violation(
+            rule, ctx.fkey(f, n, "default-by-truthiness:" + tgt), f.loc(n),
+            "%s fills in the default `%s` under the truthiness test `%s`: a "
+            "value that was given as 0 is replaced as if it were missing, "
+            "so an impossible 0 (week 0, day 0) is accepted as the default "
+            "instead of being refused by the bounds check" % (
+                f.qual, U(st), U(n.test)[:60]), P)
+    if not bad:
+        rep.ok(rule, "data.py:constructors:defaults-only-when-missing", "-",
+               "no constructor default is filled in under a truthiness "
+               "test of the field (%d defaulting statements looked at)" %
+               n_defaults, P)
+
+
+def _only_boolean(f, name):
+    from ..flow import alternatives
+
+    def boolish(e):
+        if isinstance(e, ast.Compare):
+            return True
+        if isinstance(e, ast.UnaryOp) and isinstance(e.op, ast.Not):
+            return True
+        if isinstance(e, ast.BoolOp):
+            return all(boolish(v) for v in e.values)
+        if isinstance(e, ast.Constant) and isinstance(e.value, bool):
+            return True
+        if isinstance(e, ast.Call):
+            fn = U(e.func).split(".")[-1]
+            return fn.startswith(("get_is_", "is_", "has_")) or fn in (
+                "isinstance", "bool", "any", "all", "startswith",
+                "endswith", "search", "match")
+        return False
+    alts = alternatives(f.node, name)
+    return bool(alts) and all(boolish(v) for v, _ in alts)
+
+
 def _r36_year_truthiness(ctx):
     """Year 0 is a year (and a leap one): a year - a parameter or local
     called `year` / `*_year`, or a `_year` slot - is never tested by
@@ -347,6 +435,10 @@ def _r36_year_truthiness(ctx):
                     # flags like is_leap_year / has_year are booleans
                     if isinstance(x, ast.Name) and x.id.startswith(
                             ("is_", "has_")):
+                        continue
+                    # ... and so is any local that is only ever bound to
+                    # a test (a comparison, and/or/not, a predicate call)
+                    if isinstance(x, ast.Name) and _only_boolean(f, x.id):
                         continue
                     bad.append((f, x))
     seen = set()
@@ -818,22 +910,19 @@ def r42_dst_condition(ctx):
     if not reads:
         rep.error("R42", "get_local_time_zone: no read of time.altzone")
         return
+    from ..flow import path_conds, cond_text
+    from .round5 import _atoms_of
     for n in reads:
         rep.anchor(rule, "altzone reads")
-        conds = []
-        child = n
-        for a in ancestors(n):
-            if isinstance(a, ast.If) and any(
-                    child is x or any(child is y for y in ast.walk(x))
-                    for x in a.body):
-                conds.append(U(a.test))
-            if isinstance(a, ast.IfExp) and (
-                    child is a.body or any(child is y
-                                           for y in ast.walk(a.body))):
-                conds.append(U(a.test))
-            child = a
-        txt = " and ".join(conds)
-        ok = "tm_isdst" in txt and "daylight" in txt
+        conds = path_conds(n)
+        atoms = _atoms_of(conds)
+        # both facts hold on the path, as conjuncts (a disjunction of the
+        # two lets a zone that merely *has* DST rules use the summer offset
+        # all year)
+        ok = atoms is not None and any(
+            pol and "tm_isdst" in U(t) for t, pol in atoms) and any(
+                pol and "daylight" in U(t) for t, pol in atoms)
+        txt = cond_text(conds)
         rep.check(ok, rule, ctx.fkey(f, None, "altzone-guard"), f.loc(n),
                   "time.altzone is used only under `tm_isdst == 1 and "
                   "time.daylight`",
@@ -841,7 +930,7 @@ def r42_dst_condition(ctx):
                   "daylight offset must apply only when daylight saving is "
                   "defined for the zone *and* currently in effect (a zone "
                   "with DST rules reports its summer offset in winter)" %
-                  (txt or "always"), ("C18", "C06"))
+                  (txt or "always"), ("C18", "C06", "C07"))
     also = [n for n in walk_no_nested(f.node)
             if isinstance(n, ast.Attribute) and n.attr == "timezone" and
             U(n.value) == "time"]
@@ -1447,6 +1536,31 @@ def r49_week_year_span(ctx):
                         triples.append(y.value)
                     else:
                         unknown.append(U(y))
+        # the year returned with the month and day of a walk is the year
+        # that was walked
+        for lp in walk_no_nested(f.node):
+            if not (isinstance(lp, ast.For) and isinstance(
+                    lp.iter, ast.Call) and U(lp.iter.func) ==
+                    "iter_months_days" and lp.iter.args and isinstance(
+                        lp.target, ast.Tuple) and len(
+                            lp.target.elts) == 2):
+                continue
+            walked = U(lp.iter.args[0])
+            tnames = [U(x) for x in lp.target.elts]
+            for r in ast.walk(lp):
+                if isinstance(r, ast.Return) and isinstance(
+                        r.value, ast.Tuple) and len(r.value.elts) == 3 and \
+                        [U(x) for x in r.value.elts[1:]] == tnames:
+                    rep.check(
+                        U(r.value.elts[0]) == walked, rule,
+                        ctx.fkey(f, r, "year-of-walk"), f.loc(r),
+                        "the month and day of the walk over %s are returned "
+                        "with that year" % walked,
+                        "get_calendar_date_from_week_date returns `%s` for a "
+                        "month and day found while walking the days of %s: "
+                        "the days of a week-year that fall before 1 January "
+                        "(2020-W01-2 = 2019-12-31) get the wrong year" % (
+                            U(r.value), walked), P + ("C17", "C08"))
         for v in triples:
             o = offset(v.elts[0], yp, f.node)
             if o is None:
@@ -1510,6 +1624,91 @@ def r49_week_year_span(ctx):
                       "days of January can belong to the previous week-year "
                       "and the last days of December to the next" %
                       sorted(offs), P)
+    _r49_years_walked(ctx, rep, rule, P + ("C15",))
+
+
+def _r49_years_walked(ctx, rep, rule, P):
+    """Where the calendar->week conversion counts days by walking
+    iter_months_days year after year from the week-year's start, it walks
+    the start year and the two that follow (a week-year reaches into a
+    third calendar year)."""
+    g = ctx.try_func("data.get_week_date_from_calendar_date")
+    if g is None:
+        return
+    starts = set()
+    for n in walk_no_nested(g.node):
+        if isinstance(n, ast.Assign) and isinstance(
+                n.targets[0], ast.Tuple) and n.targets[0].elts and \
+                isinstance(n.targets[0].elts[0], ast.Name):
+            starts.add(n.targets[0].elts[0].id)
+
+    def offs_of(e, loopvars):
+        """offsets relative to a start-year name"""
+        if isinstance(e, ast.Name):
+            if e.id in starts:
+                return {0}
+            return loopvars.get(e.id)
+        if isinstance(e, ast.BinOp) and isinstance(
+                e.op, (ast.Add, ast.Sub)) and isinstance(
+                    e.right, ast.Constant) and isinstance(
+                        e.right.value, int):
+            base = offs_of(e.left, loopvars)
+            if base is None:
+                return None
+            k = e.right.value if isinstance(e.op, ast.Add) else \
+                -e.right.value
+            return {b + k for b in base}
+        return None
+    loopvars = {}
+    walked = set()
+    unknown = False
+    n_loops = 0
+    for n in walk_no_nested(g.node):
+        if isinstance(n, ast.For) and isinstance(n.target, ast.Name):
+            it = n.iter
+            vals = None
+            if isinstance(it, (ast.List, ast.Tuple)):
+                vals = set()
+                for e in it.elts:
+                    o = offs_of(e, loopvars)
+                    if o is None:
+                        vals = None
+                        break
+                    vals |= o
+            elif isinstance(it, ast.Call) and U(it.func) == "range" and \
+                    len(it.args) == 2:
+                a, b = offs_of(it.args[0], loopvars), offs_of(
+                    it.args[1], loopvars)
+                if a is not None and b is not None and len(a) == 1 and \
+                        len(b) == 1:
+                    vals = set(range(min(a), min(b)))
+            if vals is not None:
+                loopvars[n.target.id] = vals
+    for n in walk_no_nested(g.node):
+        if isinstance(n, ast.For) and isinstance(
+                n.iter, ast.Call) and U(n.iter.func) == "iter_months_days" \
+                and n.iter.args:
+            n_loops += 1
+            o = offs_of(n.iter.args[0], loopvars)
+            if o is None:
+                unknown = True
+            else:
+                walked |= o
+    if not n_loops:
+        return
+    key = ctx.fkey(g, None, "years-walked")
+    if unknown:
+        rep.undecided(rule, key, g.loc(), "the years whose days are walked "
+                      "are not of the start_year + k form", P)
+        return
+    rep.check({0, 1, 2} <= walked, rule, key, g.loc(),
+              "the day walk covers the start year of the week-year and the "
+              "two calendar years after it",
+              "get_week_date_from_calendar_date walks the days of the years "
+              "start+%s only: a week-year that began in the last days of "
+              "December reaches into the first days of January two calendar "
+              "years later (2021-01-01 is 2020-W53-5, begun 2019-12-30), "
+              "which then raise 'Bad calendar date'" % sorted(walked), P)
 
 
 RULES["R49"] = r49_week_year_span
